@@ -7,7 +7,7 @@ use crate::flowgen;
 use hv_common::{read_lines, Args, Recorder, Rng};
 use std::collections::BTreeMap;
 
-pub const OPS: &[&str] = &["batches", "batch_snap", "two_batches", "state_counter", "state_prev_last", "lookup_counts"];
+pub const OPS: &[&str] = &["batches", "batch_snap", "two_batches", "state_counter", "state_prev_last", "lookup_counts", "state_opt_keep"];
 
 fn split_two<'a>(ticks: &[&'a str]) -> Option<Vec<(&'a str, &'a str)>> {
     ticks.iter().map(|s| s.split_once('/')).collect()
@@ -77,6 +77,22 @@ pub fn exec(rec: &mut Recorder, op: &str, field: &str, line: &str) -> Option<Str
                 if let Some(seen) = o.first() {
                     let expect = if i == 0 { None } else { t[i - 1].last().copied() };
                     rec.check(*seen == expect, "c31-state-not-carried@state_prev_last", &format!("{line}: slice {i} sees {:?}, previous slice wrote {:?}", seen, expect));
+                }
+            }
+            r.iter().map(|o| one(o, show_opt_int)).collect::<Vec<_>>().join("|")
+        }
+        "state_opt_keep" => {
+            // Optional state with the non-null initial value 100; slice i stores the sum of its batch
+            // when that is positive and NULL otherwise.  Oracle (from the fed batches only): slice 0
+            // sees the initial value, slice i+1 sees exactly what slice i stored (null included).
+            let t: Vec<Vec<i32>> = ticks.iter().map(|s| parse_ints(s)).collect::<Option<_>>()?;
+            let Ok(r) = flowgen::run_c31_state_opt_keep(&t) else { return Some("panic".into()) };
+            for (i, o) in r.iter().enumerate() {
+                rec.check(o.len() == 1, "c31-state-slice-output-count@state_opt_keep", &format!("{line}: slice {i} emitted {} values", o.len()));
+                if let Some(seen) = o.first() {
+                    let expect = if i == 0 { Some(100) } else { Some(t[i - 1].iter().sum::<i32>()).filter(|s| *s > 0) };
+                    if i > 0 && expect.is_none() { rec.count("state_opt_keep:null-stored-then-read"); }
+                    rec.check(*seen == expect, "c31-state-not-carried@state_opt_keep", &format!("{line}: slice {i} sees {:?}, previous slice stored {:?} (initial value only in slice 0)", seen, expect));
                 }
             }
             r.iter().map(|o| one(o, show_opt_int)).collect::<Vec<_>>().join("|")
